@@ -20,7 +20,13 @@ def SPEC(tier):
         cfgs += [simd_cfg('sse2-gcc', ['-msse2'], 'g++'), simd_cfg('sse41-clang', ['-msse4.1'], 'clang++'), simd_cfg('avx2-gcc', ['-mavx2'], 'g++'),
                  simd_cfg('avx2fma-clang', ['-mavx2', '-mfma', '-DGLM_FORCE_FMA'], 'clang++')]
     st = driver_stage('C03', cfgs, 'class', 3000, 100000, require_simd=True)
-    return {'stages': [st], 'assumptions': props.COMMON_ASSUME + ['the pure library is built with -DGLM_FORCE_PURE on packed types, the SIMD libraries with -DGLM_FORCE_INTRINSICS -m<isa> on aligned types; NEON and MSVC paths are unreachable here'],
+    # coverage-guided campaign: pure vs AVX2 in one process, the fuzzer steers the generators' choices
+    fz = driver_stage('C03', [cfgs[0], simd_cfg('avx2-gcc', ['-mavx2'] + (['-DOPS_WITH_MEDIUMP'] if tier == 'thorough' else []), 'g++')], 'class', 0, 0, require_simd=True, name='fuzz')
+    fz.kind = 'fuzz'
+    fz.cmd = list(props.vlib.FUZZ) + list(props.vlib.COMMON)
+    fz.fuzz_seconds = {'quick': 15, 'thorough': 300}
+    fz.replay_stage = 'driver'
+    return {'stages': [st, fz], 'assumptions': props.COMMON_ASSUME + ['the pure library is built with -DGLM_FORCE_PURE on packed types, the SIMD libraries with -DGLM_FORCE_INTRINSICS -m<isa> on aligned types; NEON and MSVC paths are unreachable here'],
             'rule': 'one target per operation instance (function x shape x element type x qualifier); identical input slots to the pure library and to every SIMD library; '
                     'comparison class per operation (bits / value / k ulp of the largest intermediate term / 2^-11 relative on lowp); non-trivial = input slots not all equal; '
                     'cases whose inputs sit within 2^-10 (relative) of a branch threshold are counted but not compared'}
